@@ -328,7 +328,7 @@ fn run_inner(
     let raw_len = match hdr {
         Ok(Ok(n)) => n as usize,
         Ok(Err(e)) => {
-            if dropped_before(15) || (stream.interrupted_returned && is_interrupted(&e)) {
+            if stream.hard_error_returned || dropped_before(15) || (stream.interrupted_returned && is_interrupted(&e)) {
                 ctx.fault("connection_drop", dropped_before(15) as u64);
                 return Ok(());
             }
@@ -346,7 +346,7 @@ fn run_inner(
     let mut state = match st {
         Ok(Ok(s)) => s,
         Ok(Err(e)) => {
-            if dropped_before(start_ev.off + start_ev.len) || (stream.interrupted_returned && is_interrupted(&e)) {
+            if stream.hard_error_returned || dropped_before(start_ev.off + start_ev.len) || (stream.interrupted_returned && is_interrupted(&e)) {
                 ctx.fault("connection_drop", 1);
                 return Ok(());
             }
@@ -385,6 +385,12 @@ fn run_inner(
         let code = match res {
             Ok(Ok(c)) => c,
             Ok(Err(err)) => {
+                if stream.hard_error_returned {
+                    // injected hard I/O error inside this event: it must surface, and the completed part must be intact
+                    ctx.probe("hard stream error in the middle of the recording");
+                    dropped = true;
+                    break;
+                }
                 if dropped_before(e.off + e.len) {
                     // connection lost inside this event: the completed part must be intact
                     ctx.fault("connection_drop", 1);
@@ -400,6 +406,9 @@ fn run_inner(
             }
             Err(c) => return Err(caught(prop, &format!("parse_event[{:#04x}]", e.code), c)),
         };
+        if stream.hard_error_returned {
+            return Err(Violation::new(prop, "swallowed-io-error", format!("parse_event[{:#04x}]", e.code), "the stream returned a hard I/O error but parse_event reported success"));
+        }
         cur.advance(m, e);
         ctx.state(cur.sig(m));
         let fa = state.frames();
@@ -501,6 +510,16 @@ fn run_inner(
         }
     }
     if dropped {
+        // the consumed-byte count must still describe the events that completed
+        if flags.protocol {
+            let done_end = m.events.iter().skip(1).take_while(|e| e.off + e.len <= m.raw_end && consumed(e.off + e.len) <= state.bytes_read()).last().map(|e| consumed(e.off + e.len));
+            if done_end != Some(state.bytes_read()) {
+                return Err(Violation::new(prop, "bytes-read-mismatch", "after-failed-call", format!("bytes_read {} is not at an event boundary the recorder reached", state.bytes_read())));
+            }
+            if state.frames().rows() < prev_rows {
+                return Err(Violation::new(prop, "frame-count-decreased", "after-failed-call", "row count decreased after a failed call"));
+            }
+        }
         // invariants on what was completed before the connection dropped
         if flags.model_rows {
             let fa = state.frames();
@@ -541,7 +560,7 @@ fn run_inner(
     match rb {
         Ok(Ok(())) => {}
         Ok(Err(_)) => {
-            if dropping.is_some() || stream.interrupted_returned {
+            if dropping.is_some() || stream.interrupted_returned || stream.hard_error_returned {
                 return Ok(());
             }
             return Err(Violation::new(prop, "unexpected-err", "tail", "could not read the byte after the raw element"));
@@ -553,7 +572,7 @@ fn run_inner(
         match r {
             Ok(Ok(())) => {}
             Ok(Err(e)) => {
-                if dropping.is_some() || (stream.interrupted_returned && is_interrupted(&e)) {
+                if dropping.is_some() || stream.hard_error_returned || (stream.interrupted_returned && is_interrupted(&e)) {
                     return Ok(());
                 }
                 return Err(Violation::new(prop, "unexpected-err", "parse_metadata", crate::report::short(&e.to_string(), 200)));
